@@ -8,6 +8,7 @@ use scpi::tree::prelude::*;
 use scpi::{Branch, Leaf, Root};
 use scpi_contrib::ieee488::prelude::*;
 use scpi_contrib::scpi1999::prelude::*;
+use scpi_contrib::scpi1999::status::{operation, questionable};
 use scpi_contrib::{
     ieee488_cls, ieee488_ese, ieee488_esr, ieee488_idn, ieee488_opc, ieee488_rst, ieee488_sre,
     ieee488_stb, ieee488_tst, ieee488_wai, scpi_status, scpi_system,
@@ -183,7 +184,22 @@ pub const TREE: Node<Dev> = Root![
     Leaf!(b"NOP" => &NopCmd),
     Leaf!(b"NOPQ" => &NopCmd),
     Leaf!(b"TU8" => &U8Cmd),
-    Branch!(b"DEEP"; Leaf!(b"NOP" => &NopCmd))
+    Branch!(b"DEEP"; Leaf!(b"NOP" => &NopCmd)),
+    // the same registers reached through the documented per-command type aliases (StatOper*Command / StatQues*Command)
+    // instead of the scpi_status! macro
+    Branch!(b"ALIas";
+        Branch!(b"OPERation";
+            Leaf!(default b"EVENt" => &operation::StatOperEventCommand::new()),
+            Leaf!(b"CONDition" => &operation::StatOperConditionCommand::new()),
+            Leaf!(b"ENABle" => &operation::StatOperEnableCommand::new()),
+            Leaf!(b"NTRansition" => &operation::StatOperNTransitionCommand::new()),
+            Leaf!(b"PTRansition" => &operation::StatOperPTransitionCommand::new())),
+        Branch!(b"QUEStionable";
+            Leaf!(default b"EVENt" => &questionable::StatQuesEventCommand::new()),
+            Leaf!(b"CONDition" => &questionable::StatQuesConditionCommand::new()),
+            Leaf!(b"ENABle" => &questionable::StatQuesEnableCommand::new()),
+            Leaf!(b"NTRansition" => &questionable::StatQuesNTransitionCommand::new()),
+            Leaf!(b"PTRansition" => &questionable::StatQuesPTransitionCommand::new())))
 ];
 
 fn reg_json(r: &EventRegister, rot: u32) -> Value {
@@ -217,7 +233,11 @@ pub fn unrot(v: u16, k: u32) -> i64 {
 }
 
 fn regname(r: &str, style: u64) -> &'static str {
-    match (r, style % 3) {
+    match (r, style % 5) {
+        ("OPER", 3) => "ALI:OPER",
+        ("OPER", 4) => "ALIas:OPERation",
+        (_, 3) => "ALI:QUES",
+        (_, 4) => "alias:ques",
         ("OPER", 0) => "STAT:OPER",
         ("OPER", 1) => "STATus:OPERation",
         ("OPER", _) => "stat:oper",
@@ -274,7 +294,7 @@ pub fn render_unit(u: &Value, style: u64, rotk: u32) -> String {
         "nop" => if style % 2 == 0 { "NOP".into() } else { "DEEP:NOP".into() },
         "nopq" => format!("NOPQ? {}", v),
         "fail" => format!("FAIL {},{}", u["code"], u["ext"]),
-        "bad" => match (u["k"].as_str().unwrap(), if u["k"] == "form" { style % 8 } else if u["k"] == "syntax" { style % 5 } else { style % 3 }) {
+        "bad" => match (u["k"].as_str().unwrap(), if u["k"] == "form" { style % 8 } else if u["k"] == "syntax" { style % 5 } else if u["k"] == "undef" { style % 12 } else { style % 3 }) {
             ("syntax", 0) => "NOP $".into(),
             ("syntax", 1) => "NOP 1,,2".into(),
             ("syntax", 2) => "TU8 'abc".into(),
@@ -282,7 +302,17 @@ pub fn render_unit(u: &Value, style: u64, rotk: u32) -> String {
             ("syntax", _) => "NOPQ? , 1".into(),
             ("undef", 0) => "XYZ".into(),
             ("undef", 1) => "STAT:OPER:NOPE?".into(),
-            ("undef", _) => "*XYZ".into(),
+            ("undef", 2) => "*XYZ".into(),
+            // a valid path with one NON-default level left out is still undefined (and must not pop / clear anything)
+            ("undef", 3) => "SYST:ALL?".into(),
+            ("undef", 4) => "SYST:COUN?".into(),
+            ("undef", 5) => "SYST:NEXT?".into(),
+            ("undef", 6) => "STAT:COND?".into(),
+            ("undef", 7) => "STAT:ENAB 0".into(),
+            ("undef", 8) => "OPER:EVEN?".into(),
+            ("undef", 9) => "ERR:ALL?".into(),
+            ("undef", 10) => "STAT:OPER:PRES".into(),
+            ("undef", _) => "SYST?".into(),
             ("p108", 0) => "NOP 1".into(),
             ("p108", 1) => "*WAI 1".into(),
             ("p108", _) => "TU8 1,2".into(),
@@ -654,7 +684,7 @@ pub fn record_trace(args: &[String]) -> i32 {
                             match r {
                                 Err(p) => out.put(&json!({"ev": "panic", "msg": p, "units": units, "cap": cap})),
                                 Ok((Some((code, bytes)), post)) => out.put(&json!({"ev": "cap", "cap": cap, "len": len, "code": code,
-                                    "same": bytes == rbytes && post == rpost, "within": bytes.len() <= cap, "text": text})),
+                                    "same": bytes == rbytes && post == rpost, "within": bytes.len() <= cap, "text": text, "qpost": post["queue"]})),
                                 Ok((None, _)) => {}
                             }
                         }
